@@ -143,6 +143,7 @@ func runC13(c *fw.Ctx) {
 		O("count", I(3), "name", spec.StrV("test"), "tags", L(spec.StrV("a"), spec.StrV("b"))),
 	}
 	c.Cases("pinned", len(pins), true, func(i int, r *rng.R) { c13Case(c, r, pins[i]) })
+	historyCases(c, "history", 600, 60000, probeNative)
 	c.Cases("trees", c.N(2000, 1000000), false, func(i int, r *rng.R) {
 		c13Case(c, r, spec.GenTree(r, spec.Opts{MaxDepth: r.Range(1, 6), MaxWidth: r.Range(1, 5), ScalarBias: r.Range(3, 8), Wide: true}))
 	})
